@@ -1,3 +1,96 @@
-From WTF Require Import Model.Lru.
-Theorem placeholder : True. Proof. exact I. Qed.
-Print Assumptions placeholder.
+(* C12 — The result cache is a correct bounded LRU with a staleness limit.
+   Statements only; every proof is `exact <lemma of Proofs/LruProofs.v>`.
+   All theorems quantify over: any key/value types with a decidable key equality, any
+   capacity c (non-positive ones are replaced by the default), any lifetime t, and ANY
+   history h of time-stamped operations whose time stamps do not decrease (mono_from). *)
+From Coq Require Import List ZArith NArith Bool.
+From WTF Require Import Model.Lru Proofs.LruProofs.
+Import ListNotations.
+Open Scope Z_scope.
+
+Section C12.
+Variables K V : Type.
+Variable keqb : K -> K -> bool.
+Hypothesis keqb_spec : forall a b, keqb a b = true <-> a = b.
+Notation reach := (reach K V keqb).
+Notation step := (step K V keqb).
+Notation trace := (trace K V keqb).
+
+(* never more entries than the capacity; capacity positive; one entry per key *)
+Theorem lru_capacity : forall c t t0 h, mono_from K V t0 h ->
+  let s := reach c t t0 h in
+  0 < cap s /\ Z.of_nat (length (items s)) <= cap s /\ NoDup (keys K V (items s)).
+Proof. exact (capacity_reachable K V keqb keqb_spec). Qed.
+
+(* when full, inserting a new key discards exactly the entry read or written longest ago:
+   the victim is the entry with the smallest touch index, every other entry is kept as is *)
+Theorem lru_evicts_least_recent : forall c t t0 h now k v, mono_from K V t0 h ->
+  let s := reach c t t0 h in
+  lookup K V keqb k (items s) = None -> Z.of_nat (length (items s)) = cap s ->
+  exists old victim,
+    items s = old ++ [victim] /\
+    items (fst (step s now (Put k v))) =
+      {| e_key := k; e_val := v; e_created := now; e_stored := now; e_touch := S (tick s) |} :: old /\
+    Forall (fun e => (e_touch victim < e_touch e)%nat) old /\
+    evictions (fst (step s now (Put k v))) = N.succ (evictions s).
+Proof. exact (evicts_least_recent K V keqb keqb_spec). Qed.
+
+(* the ghost fields mean what they say: for every cached entry, value / store time / touch index
+   are the ones the history dictates (last Put not followed by Delete/Clear; time of the last Put;
+   index of the last Put or hit Get) *)
+Theorem lru_ghosts_follow_history : forall c t t0 h, mono_from K V t0 h ->
+  Agree K V keqb (reach c t t0 h) (trace c t h).
+Proof. exact (agree_reachable K V keqb keqb_spec). Qed.
+
+(* a lookup returns the value most recently stored under that key *)
+Theorem lru_get_latest : forall c t t0 h now k v, mono_from K V t0 h ->
+  snd (step (reach c t t0 h) now (Get k)) = OGet (Some v) ->
+  live_val K V keqb k (trace c t h) = Some v.
+Proof. exact (get_latest K V keqb keqb_spec). Qed.
+
+(* ... and never a value stored longer ago than the configured lifetime *)
+Theorem lru_never_stale : forall c t t0 h now k v,
+  mono_from K V t0 h -> last_time K V t0 h <= now -> 0 < t ->
+  snd (step (reach c t t0 h) now (Get k)) = OGet (Some v) ->
+  exists st, stored_at K V keqb k (trace c t h) = Some st /\ now - st <= t.
+Proof. exact (never_stale K V keqb keqb_spec). Qed.
+
+(* expiry sweeps remove only expired entries (and report how many) *)
+Theorem lru_sweep_sound : forall c t t0 h now, mono_from K V t0 h ->
+  let s := reach c t t0 h in
+  exists kept dropped,
+    items s = kept ++ dropped /\
+    items (fst (step s now Cleanup)) = kept /\
+    snd (step s now Cleanup) = OInt (Z.of_nat (length dropped)) /\
+    Forall (fun e => 0 < ttl s /\ now - e_created e > ttl s) dropped.
+Proof. exact (sweep_sound K V keqb). Qed.
+
+(* hit / miss / eviction / size statistics equal what happened since the last clear *)
+Theorem lru_stats_exact : forall c t t0 h,
+  let s := reach c t t0 h in
+  let ev := since_clear_rev K V (rev (strace_from K V keqb (new K V c t) h)) in
+  hits s = count K V (is_hit K V) ev /\ misses s = count K V (is_miss K V) ev /\
+  evictions s = count K V (is_evict K V keqb) ev /\
+  snd (step s 0 Stats) = OStats (hits s) (misses s) (evictions s) (Z.of_nat (length (items s))) (cap s).
+Proof. exact (stats_exact K V keqb). Qed.
+
+End C12.
+
+Print Assumptions lru_capacity.
+Print Assumptions lru_evicts_least_recent.
+Print Assumptions lru_ghosts_follow_history.
+Print Assumptions lru_get_latest.
+Print Assumptions lru_never_stale.
+Print Assumptions lru_sweep_sound.
+Print Assumptions lru_stats_exact.
+
+(* non-vacuity: a concrete history at capacity 2 with an eviction, a hit, an expiry and a sweep *)
+Definition ex_hist : list (Z * @op N N) :=
+  [(1, Put 1%N 10%N); (2, Put 2%N 20%N); (3, Get 1%N); (4, Put 3%N 30%N); (5, Get 2%N);
+   (50, Get 1%N); (51, Cleanup); (52, Stats)].
+Example ex_mono : mono_from N N 0 ex_hist.
+Proof. simpl. repeat split; discriminate. Qed.
+Example ex_run :
+  snd (run N N N.eqb (new N N 2 10) ex_hist) =
+  [OUnit; OUnit; OGet (Some 10%N); OUnit; OGet None; OGet None; OInt 1; OStats 1 2 1 0 2].
+Proof. vm_compute. reflexivity. Qed.
